@@ -59,11 +59,11 @@ CHECKS = {
             BASE_NOTE, "DESIGN.md §5 C03"),
     "C05": ("proof",
             "Coq proof classifying every failure of the model (all Python exception sites are explicit Crash values) + valid/malformed correspondence streams",
-            "Theorem over ALL packages and options: convert_to_html / extract_raw_text return a result or fail with one of an enumerated list of out-of-domain causes "
+            "Theorem over ALL packages and options: convert_to_html / convert_to_markdown / extract_raw_text return a result or fail with one of an enumerated list of out-of-domain causes "
             "(missing required attributes, unresolved ids, unbalanced fldChar, non-numeric values, broken package structure); never LineParseError, never because of a style map, "
-            "a missing mc:Fallback or a dangling numStyleLink. The model is tied to the code on a valid stream (no exception allowed, html/markdown/raw) and a malformed stream "
+            "a missing mc:Fallback or a dangling numStyleLink, and never because the model's own recursion fuel ran out (body_read_all_fuel). The model is tied to the code on a valid stream (no exception allowed, html/markdown/raw) and a malformed stream "
             "(model Crash <=> implementation raises).",
-            BASE_NOTE + "Python's recursion limit, memory and expat errors are not modelled; the link from the property's domain description to the crash codes is by the documented table in Proofs/ReaderSpec.v.in; markdown writer exercised by the oracle only.",
+            BASE_NOTE + "Python's recursion limit, memory and expat errors are not modelled; the link from the property's domain description to the crash codes is by the documented table in Proofs/ReaderSpec.v.in.",
             "DESIGN.md §5 C05"),
     "C09": ("proof",
             "Coq proof, unbounded in rows and columns, that the vMerge sweep reproduces the document grid under HTML table layout + exhaustive tilings correspondence",
@@ -104,11 +104,12 @@ CHECKS = {
             BASE_NOTE + "Domain: identifiers without raw whitespace other than \\n \\r \\t; attribute names distinct and not `class` next to classes; list level within the interpreter's int-digit limit.",
             "DESIGN.md §5 C06"),
     "C08": ("proof",
-            "Coq facts computed over the default style map regenerated from options.py + numbering-resolution equations + end-to-end correspondence with a stack-algorithm block oracle",
+            "Coq facts computed over the default style map regenerated from options.py + refinement theorem collapse(list paths) = stack machine + numbering-resolution equations + end-to-end correspondence with a stack-algorithm block oracle",
             "Theorems by computation over the generated default map: Heading 1-6 by id and by name in any case give fresh h1-h6, list levels 1-5 give (ul|ol > li)^(d-1) > own-type > li:fresh, everything else a fresh p, "
             "every paragraph block ends in a fresh element (with C04's merge_iff: no two paragraphs share a block); the paragraph's own numId+ilvl win, else the paragraph style's level; find_level follows num -> abstractNum -> numStyleLink. "
-            "Oracle: the block skeleton of the output equals an independent stack-algorithm specification for random paragraph sequences in body, cells and notes through all three numbering mechanisms.",
-            BASE_NOTE + "The refinement `collapse of the default list paths = stack algorithm` is validated by the oracle (and C04's theorems), not yet a single Coq theorem.",
+            "NESTING THEOREM (any number of blocks, any depth): collapse of the default list paths emits exactly the tag events of a stack machine (item at depth d inside d lists, continues the open list of its type or opens a new one, implicit levels bulleted, any other block closes all lists). "
+            "Oracle: the block skeleton of the output equals an independent stack-algorithm specification for random paragraph sequences in body, cells and notes through all three numbering mechanisms; the Coq machine is evaluated against the implementation's output too.",
+            BASE_NOTE + "Domain of the nesting theorem: a paragraph's own inline content has no top-level element called ul/ol; headings/paragraphs map to fresh non-list elements (true of the default map).",
             "DESIGN.md §5 C08"),
     "C12": ("proof",
             "Coq proofs about the archive/XML-entry bookkeeping, the UTF-8 round trip and the file rewrite (truncate flag read from zips.py on every run) + history and fault-injection correspondence",
